@@ -3,7 +3,7 @@
    (Generated/CalTrackTables.v). The unbounded parts (bins, occupancy, hour of week) are in CalTrackProofs.v,
    which does not look inside the tables and keeps checking when a table changes. *)
 From Coq Require Import ZArith QArith Qminmax List Bool String Lia.
-From V Require Import Generated.CalTrackTables Model.CalTrack.
+From V Require Import Generated.CalTrackTables Model.CalTrack Proofs.CalTrackProofs.
 Import ListNotations.
 
 (* ------------------------------------------------------------------------------------------------ *)
@@ -126,3 +126,95 @@ Section PredictValueProofs.
   Qed.
 End PredictValueProofs.
 
+
+(* ---- every weight of every table is 0, 1/2 or 1 (so "sums to more than zero" is "some weight is positive") ---- *)
+Definition weight_ok (w : Q) : bool := Qeq_bool w 0 || Qeq_bool w (1 # 2) || Qeq_bool w 1.
+Lemma weights_in_0_half_1 : forall type t, In (type, t) segment_tables -> forall s, In s t -> forall m, In m months ->
+  (seg_weight s m == 0 \/ seg_weight s m == 1 # 2 \/ seg_weight s m == 1)%Q.
+Proof.
+  assert (H : forallb (fun tt => forallb (fun s => forallb (fun m => weight_ok (seg_weight s m)) months) (snd tt)) segment_tables = true)
+    by (vm_compute; reflexivity).
+  intros type t Ht s Hs m Hm.
+  rewrite forallb_forall in H. specialize (H _ Ht). cbn [snd] in H.
+  rewrite forallb_forall in H. specialize (H _ Hs).
+  rewrite forallb_forall in H. specialize (H _ Hm).
+  unfold weight_ok in H. apply orb_true_iff in H. destruct H as [H | H]; [ apply orb_true_iff in H; destruct H as [H | H] | ];
+    apply Qeq_bool_iff in H; tauto.
+Qed.
+
+(* ---- prediction with dropped zero-weight columns and absent fitted models ---------------------------------- *)
+Lemma existsb_false_at : forall (A : Type) (f : A -> bool) l x, existsb f l = false -> In x l -> f x = false.
+Proof.
+  intros A f l x H Hx. destruct (f x) eqn:E; [ | reflexivity ].
+  assert (existsb f l = true) by (apply existsb_exists; exists x; split; assumption). congruence.
+Qed.
+
+Lemma terms_on_filter : forall present fitted ft m, In m present ->
+  prediction_terms_on present fitted ft m = filter (fun fw => mem_str (fst fw) fitted) (prediction_terms ft m).
+Proof.
+  intros present fitted ft m Hm. unfold prediction_terms_on, prediction_terms.
+  destruct (assoc ft prediction_info) as [ [ptype mapping] | ]; [ | reflexivity ].
+  induction (tbl ptype) as [ | s l IH ]; [ reflexivity | ].
+  cbn [filter flat_map]. rewrite filter_app. rewrite <- IH.
+  destruct (kept_segment present s) eqn:K.
+  - cbn [flat_map]. f_equal.
+    destruct (Qle_bool (seg_weight s m) 0); [ reflexivity | ].
+    destruct (fitted_name mapping (seg_name s)) as [ f | ]; [ | reflexivity ].
+    cbn [filter fst]. destruct (mem_str f fitted); reflexivity.
+  - unfold kept_segment in K. pose proof (existsb_false_at _ _ _ _ K Hm) as E. cbn beta in E.
+    apply negb_false_iff in E. rewrite E. reflexivity.
+Qed.
+
+Lemma terms_on_incl : forall present fitted ft m, incl (prediction_terms_on present fitted ft m) (prediction_terms ft m).
+Proof.
+  intros present fitted ft m fw. unfold prediction_terms_on, prediction_terms.
+  destruct (assoc ft prediction_info) as [ [ptype mapping] | ]; [ | intros [] ].
+  rewrite !in_flat_map. intros [s [Hs Hfw]]. apply filter_In in Hs. destruct Hs as [Hs _]. exists s. split; [ exact Hs | ].
+  destruct (Qle_bool (seg_weight s m) 0); [ exact Hfw | ].
+  destruct (fitted_name mapping (seg_name s)) as [ f | ]; [ | exact Hfw ].
+  destruct (mem_str f fitted); [ exact Hfw | destruct Hfw ].
+Qed.
+
+(* whatever months the index covers and whichever segment models exist: an hour is predicted by nothing but its own
+   month's model, with weight 1 *)
+Lemma predicted_only_by_own_l : forall present fitted m f w, In m months ->
+  In (f, w) (prediction_terms_on present fitted "three_month_weighted" m) ->
+  own_segment (tbl "three_month_weighted") m = Some f /\ w = 1%Q.
+Proof.
+  intros present fitted m f w Hm Hin. apply terms_on_incl in Hin.
+  destruct (predict_single_model_l m Hm) as [s [Ho Hp]]. rewrite Hp in Hin.
+  destruct Hin as [E | []]. inversion E; subst. split; [ exact Ho | reflexivity ].
+Qed.
+
+(* ... and when the hour's month occurs in the index: by exactly that model if it exists, by none otherwise *)
+Lemma predict_on_l : forall present fitted m, In m months -> In m present ->
+  exists own, own_segment (tbl "three_month_weighted") m = Some own /\
+    prediction_terms_on present fitted "three_month_weighted" m = (if mem_str own fitted then [(own, 1%Q)] else []).
+Proof.
+  intros present fitted m Hm Hp. destruct (predict_single_model_l m Hm) as [s [Ho Ht]].
+  exists s. split; [ exact Ho | ]. rewrite (terms_on_filter present fitted _ m Hp). rewrite Ht.
+  cbn [filter fst]. destruct (mem_str s fitted); reflexivity.
+Qed.
+
+(* ---- candidate bin endpoints ---------------------------------------------------------------------------------- *)
+Lemma candidates_increasing_l : increasing default_bins.
+Proof. cbn. repeat split; discriminate. Qed.
+
+Lemma endpoints_increasing_l : forall flags, increasing (endpoints_of_flags flags).
+Proof. intros flags. apply select_increasing. exact candidates_increasing_l. Qed.
+
+Lemma bins_sum_any_flags_l : forall flags T, (sum QOps (bin_features QOps T (endpoints_of_flags flags)) == T)%Q.
+Proof. intros flags T. apply bins_sum_to_T_l. apply endpoints_increasing_l. Qed.
+
+Lemma default_bins_same_l : map Q2F default_bins = default_bins_f.
+Proof. vm_compute. reflexivity. Qed.
+
+(* ---- the month a fitted segment's uncertainty figures are filed under (wrapper.py) ------------------------------ *)
+Lemma wrapper_month_key_l : forall m, In m months ->
+  exists own, own_segment (tbl "three_month_weighted") m = Some own /\
+              unc_segment (map seg_name (tbl "three_month_weighted")) m = Some own.
+Proof. intros m Hm. each_month Hm; (eexists; split; by_computation). Qed.
+
+Lemma wrapper_keys_known_l : forall s, In s (tbl "three_month_weighted") ->
+  exists a n, month_key (seg_name s) = Some a /\ assoc a wrapper_month_dict = Some n.
+Proof. intros s Hs. each_seg Hs; (do 2 eexists; split; by_computation). Qed.
